@@ -128,6 +128,16 @@ var ssoTimes = map[string]func() string{
 	"zone-past":   func() string { return world.Now.Add(-time.Hour).In(time.FixedZone("", -(3*3600 + 1800))).Format("2006-01-02T15:04:05-07:00") },
 	"zone+future": func() string { return world.Now.Add(time.Hour).In(time.FixedZone("", 2*3600)).Format("2006-01-02T15:04:05-07:00") },
 	"zone-15future": func() string { return world.Now.Add(10 * time.Minute).In(time.FixedZone("", -900)).Format("2006-01-02T15:04:05-07:00") },
+	// instants far from now: beyond the range of a signed 64-bit nanosecond count (1677-09-21T00:12:43.145224192Z .. 2262-04-11T23:47:16.854775807Z),
+	// next to its ends, and centuries away (what "never expires" / DateTime.MinValue-like values serialise to)
+	"y1601":  func() string { return "1601-01-01T00:00:00Z" },
+	"y1677-": func() string { return "1677-09-21T00:12:43Z" },
+	"y1677+": func() string { return "1677-09-21T00:12:44Z" },
+	"y2262-": func() string { return "2262-04-11T23:47:16Z" },
+	"y2262+": func() string { return "2262-04-11T23:47:17Z" },
+	"y2300":  func() string { return "2300-01-01T00:00:00.000001Z" },
+	"y3000":  func() string { return "3000-06-15T12:00:00Z" },
+	"leap":   func() string { return world.Now.Add(time.Hour).Format("2006-01-02T15:04") + ":60Z" },
 	"lowz":  func() string { return strings.ToLower(world.Now.Add(-time.Hour).Format("2006-01-02T15:04:05Z")) },
 	"nofrac-": func() string { return world.Now.Add(-time.Hour).Format("2006-01-02T15:04:05Z") },
 	"nofrac+": func() string { return world.Now.Add(time.Hour).Format("2006-01-02T15:04:05Z") },
